@@ -14,7 +14,13 @@ RULES[PID] = ("c08-console: command lines derived from the console grammar (src/
               "parentheses, literal nesting, operator chains, 100000-digit number, 200000-character symbol). Each line goes to the real "
               "Command::parse under catch_unwind in a worker thread (8 MiB stack) with a wall-clock watchdog; outcome class Ok / Err / Panic / "
               "Timeout; Panic and Timeout violate the property. Numeric lines are num_cases (model predicts the panic), expression lines are "
-              "dqe_parse_cases. Non-trivial: at least two words; distinct by (case, line).")
+              "dqe_parse_cases. Non-trivial: at least two words; distinct by (case, line). c08-dap: sessions of a real DebugSession (in-memory client, real debuggee): "
+              "0-4 requests before initialize/launch, 4-14 while stopped at a breakpoint, 0-4 after the exit, then terminate or disconnect; commands drawn from the "
+              "adapter's 41 request kinds (+ an unknown one); per argument key: a plausible value (60%), missing (10%), a value of another JSON kind incl. null / nested arrays "
+              "/ objects (40% of the rest), a boundary number (0, -1, 2^31, 2^32, 2^53, i64::MIN/MAX, u64::MAX, 1.5, 1e300); strings from 45 texts (empty, non-ASCII of 2/3/4 "
+              "UTF-8 bytes, combining marks, NUL, over-long hex, unbalanced expressions, 10000 characters); completions is also directed at every column around the char / "
+              "byte / UTF-16 lengths of the text. Demanded: a response to every request within 30 s, no panic of the session thread, a following `threads` request answered. "
+              "Distinct by (phase, command, arguments).")
 
 
 def classify(i, meta, v):
@@ -68,6 +74,24 @@ def run(tier, seed):
             d = dict(e)
             d.pop("case_meta", None)
             ctx.add_leg(d, {"panics": sum(1 for m in metas if m.get("outcome") == "panic")})
+        # DAP requests of every kind with missing / ill-typed / boundary / non-ASCII / huge arguments
+        n = 400 if tier == "quick" else 8000
+        d = ctx.run_leg("c08-dap", [seed, n, ctx.cases_dir, ctx.scratch + "/dap"])
+        if d is not None:
+            seen = set()
+            for f in d.get("failures") or []:
+                key = "c08-dap:%s@%s" % (f.get("kind"), f.get("site") or f.get("command"))
+                if key in seen or len(seen) >= 5:
+                    continue
+                seen.add(key)
+                ctx.violate("impl-violates-spec", "c08-dap", {"what": "DAP request `%s` in phase %s: %s %s" % (f.get("command"), f.get("phase"), f.get("kind"), f.get("msg")),
+                                                              "request": {"command": f.get("command"), "arguments": f.get("arguments")}, "site": f.get("site"),
+                                                              "replay": "c08-dap %s %s - <scratch>" % (seed, n)}, key=key, found_input=True)
+            if d.get("errors"):
+                ctx.violate("tie-broken", "c08-dap", {"errors": d["errors"][:5]}, key="c08-dap:errors", found_input=False)
+            dd = dict(d)
+            dd.pop("failures", None)
+            ctx.add_leg(dd, {"failures": len(d.get("failures") or [])})
     return ctx.finish(["only the parsing stage of a console line is exercised here (Command::parse); execution of data queries on a stopped "
-                       "debuggee is the c07-eval leg of C07; DAP messages are covered by C12",
+                       "debuggee is the c07-eval leg of C07; the protocol discipline of DAP answers is C12, crashes / hangs on DAP requests are the c08-dap leg here",
                        "a worker that does not answer within the watchdog limit is abandoned, not killed"])
